@@ -110,3 +110,5 @@ MANIFEST = {
     'technique': 'ast CFG + loop-variant analysis + interprocedural exception-escape fixpoint',
     'design_ref': 'DESIGN.md 3/C06, 2.4, 2.5 A1-A2',
 }
+MANIFEST['note'] += (' Also decided here (necessary conditions shared between properties or added after the independent '
+                     'change rounds, DESIGN.md 8.7): registry consistency (from C05).')
